@@ -93,6 +93,8 @@ type source struct {
 	mu       sync.Mutex
 	fates    []string // consumed one per RequestBlock call, then "serve"
 	requests []model.Hash
+	fateLog  []string
+	probe    func(bitcoin.Hash32) string // diagnostic: state of the manager at request time
 	hold     chan struct{} // when non-nil, served blocks wait for it (to keep a request pending)
 	wg       sync.WaitGroup
 }
@@ -140,6 +142,11 @@ func (s *source) RequestBlock(ctx context.Context, hash bitcoin.Hash32, handler 
 		fate, s.fates = s.fates[0], s.fates[1:]
 	}
 	s.requests = append(s.requests, model.Hash(hash))
+	extra := ""
+	if s.probe != nil {
+		extra = s.probe(hash)
+	}
+	s.fateLog = append(s.fateLog, fate+extra)
 	hold := s.hold
 	s.mu.Unlock()
 	if fate == "nonode" {
@@ -199,6 +206,26 @@ func (s *source) RequestBlock(ctx context.Context, hash bitcoin.Hash32, handler 
 	return c, nil
 }
 
+// flakyBlockTxs fails the n-th FetchBlockTxIDs lookup once (a storage error of the application's
+// block store); everything else goes to the recording store.
+type flakyBlockTxs struct {
+	spy.BlockTxs
+	mu     *sync.Mutex
+	calls  *int
+	failAt int
+}
+
+func (f flakyBlockTxs) FetchBlockTxIDs(ctx context.Context, hash bitcoin.Hash32) ([]bitcoin.Hash32, bool, error) {
+	f.mu.Lock()
+	*f.calls++
+	fail := *f.calls == f.failAt
+	f.mu.Unlock()
+	if fail {
+		return nil, false, spy.ErrInjected
+	}
+	return f.BlockTxs.FetchBlockTxIDs(ctx, hash)
+}
+
 type rig struct {
 	w       *world
 	src     *source
@@ -211,6 +238,11 @@ type rig struct {
 }
 
 func newRig(w *world, startHeight int, fates []string) *rig {
+	return newRigFlaky(w, startHeight, fates, 0)
+}
+
+// newRigFlaky: lookupFailAt > 0 makes that FetchBlockTxIDs call of the node manager fail once.
+func newRigFlaky(w *world, startHeight int, fates []string, lookupFailAt int) *rig {
 	log := spy.NewLog()
 	src := &source{w: w, fates: fates}
 	cfg := bitcoin_reader.DefaultConfig()
@@ -218,8 +250,16 @@ func newRig(w *world, startHeight int, fates []string) *rig {
 	cfg.Timeout = config.NewDuration(time.Hour)
 	nm := bitcoin_reader.NewNodeManager("/verif:1/", cfg, w.repo, bitcoin_reader.NewPeerRepository(memstore.New(), ""))
 	bm := bitcoin_reader.NewBlockManager(spy.BlockTxs{L: log}, src, 1, 2*time.Millisecond)
-	nm.SetBlockManager(spy.BlockTxs{L: log}, bm, spy.Processor{L: log})
+	if lookupFailAt > 0 {
+		nm.SetBlockManager(flakyBlockTxs{BlockTxs: spy.BlockTxs{L: log}, mu: &sync.Mutex{}, calls: new(int), failAt: lookupFailAt}, bm, spy.Processor{L: log})
+	} else {
+		nm.SetBlockManager(spy.BlockTxs{L: log}, bm, spy.Processor{L: log})
+	}
 	r := &rig{w: w, src: src, log: log, nm: nm, bm: bm, stop: make(chan interface{}), bmDone: make(chan struct{})}
+	t0 := time.Now()
+	src.probe = func(h bitcoin.Hash32) string {
+		return fmt.Sprintf("[active=%d processed=%v t=%dus]", bm.DownloaderCount(h), log.Processed(model.Hash(h)), time.Since(t0).Microseconds())
+	}
 	go func() { bm.Run(vt.Ctx(), r.stop); close(r.bmDone) }()
 	return r
 }
@@ -476,6 +516,75 @@ func TestProp_C05_trigger(t *testing.T) {
 	})
 }
 
+const ruleRecover = "the production trigger path as in the trigger leg, with the application's processed-block lookup (BlockTxManager.FetchBlockTxIDs) failing ONCE at a drawn call during the first round (the round ends with an error), block-source failures drawn as in the round leg; after the failure new best-chain headers arrive and TriggerBlockSynchronize is called again (1..3 times); oracle at quiescence: every best-chain block from the start height to the final tip was processed exactly once in strictly ascending contiguous order - a failed round must not prevent later rounds; non-trivial = the lookup failure hit (the first round ended early); distinct = (length, start, failing call, batches, fates)"
+
+func TestProp_C05_recover(t *testing.T) {
+	col := evid.For("C05", "recover", ruleRecover)
+	rapid.Check(t, func(t *rapid.T) {
+		k := col.NewCase()
+		ctx := vt.Ctx()
+		w := newWorld()
+		L := rapid.IntRange(1, 10).Draw(t, "length")
+		chain := w.extend(t, genesis, 0, L, 0x1d00ffff)
+		start := rapid.IntRange(1, L).Draw(t, "start")
+		var fates []string
+		for i := rapid.IntRange(0, 2).Draw(t, "failures"); i > 0; i-- {
+			fates = append(fates, rapid.SampledFrom([]string{"nonode", "drop", "wrong", "serve"}).Draw(t, "fate"))
+		}
+		failAt := rapid.IntRange(1, 4).Draw(t, "lookupFailAt")
+		r := newRigFlaky(w, start, fates, failAt)
+		defer r.close()
+		r.nm.VerifMarkStartupDelayComplete(ctx) // also triggers the first round
+		// let the first round run into the failing lookup (or finish, when it needs fewer lookups)
+		time.Sleep(time.Duration(rapid.IntRange(0, 20).Draw(t, "settleMs")) * time.Millisecond)
+		batches := rapid.IntRange(1, 3).Draw(t, "batches")
+		tip := chain[L-1]
+		total := L
+		var sizes []int
+		for b := 0; b < batches; b++ {
+			n := rapid.IntRange(1, 3).Draw(t, "batch")
+			sizes = append(sizes, n)
+			more := w.extend(t, tip.header, total, n, 0x1d00ffff)
+			tip = more[len(more)-1]
+			total += n
+			time.Sleep(time.Duration(rapid.IntRange(0, 5).Draw(t, "gapMs")) * time.Millisecond)
+			r.nm.TriggerBlockSynchronize(ctx)
+		}
+		var want []int
+		for h := start; h <= total; h++ {
+			want = append(want, h)
+		}
+		// The trigger that follows a failed round may itself arrive while that round is still
+		// winding down; as the reader's own periodic/new-header triggers would, keep triggering
+		// until quiescence.
+		deadline := time.Now().Add(20 * time.Second)
+		lastTrigger := time.Now()
+		for {
+			got := r.processedOrder()
+			if len(got) >= len(want) {
+				time.Sleep(5 * time.Millisecond)
+				break
+			}
+			if time.Now().After(deadline) {
+				t.Fatalf("synchronisation never resumed after the processed-block lookup failed once (call %d): processed heights %v, expected %v (L=%d start=%d batches=%v fates=%v)", failAt, got, want, L, start, sizes, fates)
+			}
+			if time.Since(lastTrigger) > 50*time.Millisecond {
+				r.nm.TriggerBlockSynchronize(ctx)
+				lastTrigger = time.Now()
+			}
+			time.Sleep(300 * time.Microsecond)
+		}
+		r.nm.Stop(ctx)
+		got := r.processedOrder()
+		if fmt.Sprint(got) != fmt.Sprint(want) {
+			t.Fatalf("blocks processed at heights %v over all rounds, expected %v (L=%d start=%d lookup failure at call %d batches=%v fates=%v)", got, want, L, start, failAt, sizes, fates)
+		}
+		k.Op("L=%d start=%d failAt=%d batches=%v fates=%v", L, start, failAt, sizes, fates)
+		k.NonTrivial = true
+		k.Done()
+	})
+}
+
 const ruleReorg = "a block request is kept pending (the block source is held back) while the header chain reorganises below it: already-processed prefix 1..j, pending block at height j+1, then a heavier branch forking at a drawn height <= j+... replaces the pending block; 16 generated scenarios run concurrently per case because each one has to sit through the reader's hard-coded 10-second orphan poll; oracle: the round ends within 3 polls (35 s) without processing the orphaned block, and the NEXT round processes the blocks of the new best chain above the last processed block in strictly ascending contiguous order; non-trivial = every scenario (a reorg hits a pending request); distinct = (length, processed prefix, fork height, new branch length)"
 
 func TestProp_C05_reorg(t *testing.T) {
@@ -702,7 +811,33 @@ func TestProp_C05_rounds(t *testing.T) {
 				seen := map[model.Hash]bool{}
 				for _, c := range calls {
 					if seen[c.Block] {
-						t.Fatalf("block processed twice over the rounds")
+						// schedule dependent: rapid cannot replay it, so the history is printed here
+						var trace []string
+						for _, x := range r.log.Calls() {
+							w.mu.Lock()
+							b := w.blocks[x.Block]
+							w.mu.Unlock()
+							h := -1
+							if b != nil {
+								h = b.height
+							}
+							trace = append(trace, fmt.Sprintf("%s@%d:%s", x.Kind, h, x.Block.String()[:6]))
+						}
+						r.src.mu.Lock()
+						var reqs []string
+						for _, h := range r.src.requests {
+							w.mu.Lock()
+							b := w.blocks[h]
+							w.mu.Unlock()
+							reqs = append(reqs, fmt.Sprintf("%d:%s", b.height, h.String()[:6]))
+						}
+						for i := range reqs {
+							if i < len(r.src.fateLog) {
+								reqs[i] += "/" + r.src.fateLog[i]
+							}
+						}
+						r.src.mu.Unlock()
+						t.Fatalf("block %s processed twice over the rounds (this round's fates %v); store/processor calls in order: %v; block requests in order: %v", c.Block.String()[:6], fates, trace, reqs)
 					}
 					seen[c.Block] = true
 				}
